@@ -661,3 +661,153 @@ func init() {
 		Doc: "the indentation decision consults the indent stack: in the lexer's checkIndent state every continue/return/goto taken before the first read of indentStack is taken only because brackets are open (a condition that is openBrackets(), a conjunction containing it, or a disjunction all of whose alternatives do) — any other early way out skips a DEDENT or accepts an unexpected indent for some source layout; the arithmetic of the comparison itself is not decided",
 		Run: runIndentConsultsStack})
 }
+
+// ---- C05.R8 (= C02.R10): what the machine carries from one instruction to the next ----
+//
+// A generator is resumed on a fresh Vm (RunFrame builds one per call); whatever must survive a yield lives in the frame
+// (value stack, block stack, Lasti). A Vm field written while instructions execute — by an opcode handler, a function it
+// calls, or the dispatch loop — is state of the *current run* only. The fields of that kind in the reviewed tree are six,
+// identified by type so that renaming one changes nothing: the EXTENDED_ARG latch (bool, int32), the pending return
+// value (py.Object), the unwind reason (vmStatus) and the two exception triples (py.ExceptionInfo ×2); each is consumed
+// within the instruction that set it or is re-established from the frame's stacks by the unwinder. A further field of
+// that kind (a pending jump target, a cached verdict) is lost when a generator is suspended between the instruction
+// that sets it and the one that reads it.
+var vmCarriedReviewed = []string{"bool", "int32", "py.Object", "vm.vmStatus", "py.ExceptionInfo", "py.ExceptionInfo"}
+
+func runVmCarriedState(c *Ctx, r *Rep) {
+	p := c.MustPkg("vm")
+	info := p.TypesInfo
+	vmT := c.Named("vm", "Vm")
+	if vmT == nil {
+		r.undecided("vmstate|anchor", token.NoPos, "type vm.Vm not found")
+		return
+	}
+	st, ok := vmT.Underlying().(*types.Struct)
+	if !ok {
+		r.undecided("vmstate|anchor", token.NoPos, "vm.Vm is not a struct")
+		return
+	}
+	fields := map[*types.Var]bool{}
+	for i := 0; i < st.NumFields(); i++ {
+		fields[st.Field(i)] = true
+	}
+	type wr struct {
+		fn  string
+		pos token.Pos
+	}
+	writes := map[*types.Var][]wr{}
+	for _, file := range c.Files(p) {
+		for _, d := range file.Decls {
+			fd, ok := d.(*ast.FuncDecl)
+			if !ok || fd.Body == nil {
+				continue
+			}
+			id := declID(p, fd)
+			// in the function that builds the Vm, the statements before its dispatch loop are construction
+			var loopPos token.Pos = token.NoPos
+			builds := false
+			ast.Inspect(fd.Body, func(nd ast.Node) bool {
+				if cl, ok := nd.(*ast.CompositeLit); ok {
+					if tv, ok := info.Types[cl]; ok && types.Identical(tv.Type, vmT) {
+						builds = true
+					}
+				}
+				return true
+			})
+			if builds {
+				for _, s := range fd.Body.List {
+					if f, ok := s.(*ast.ForStmt); ok && loopPos == token.NoPos {
+						loopPos = f.Pos()
+					}
+				}
+			}
+			record := func(lhs ast.Expr, pos token.Pos) {
+				// vm.curexc.Value = … writes the field curexc of the machine: walk down to the root
+				for e := unparen(lhs); ; {
+					switch x := e.(type) {
+					case *ast.SelectorExpr:
+						if fv, ok := info.Uses[x.Sel].(*types.Var); ok && fields[fv] {
+							if !(builds && loopPos != token.NoPos && pos < loopPos) { // else: set up before the first instruction runs
+								writes[fv] = append(writes[fv], wr{id, pos})
+							}
+							return
+						}
+						// the write lands in the machine only if the path stays inside it: through a pointer (vm.frame.Stack)
+						// it lands in the object pointed to
+						if tv, ok := info.Types[x.X]; ok {
+							if _, isPtr := tv.Type.Underlying().(*types.Pointer); isPtr {
+								if id := identOf(x.X); id == nil { // the receiver variable itself (vm) is the machine
+									return
+								}
+							}
+						}
+						e = unparen(x.X)
+						continue
+					case *ast.IndexExpr:
+						if tv, ok := info.Types[x.X]; ok {
+							if _, isArr := tv.Type.Underlying().(*types.Array); isArr {
+								e = unparen(x.X)
+								continue
+							}
+						}
+						return
+					}
+					return
+				}
+			}
+			ast.Inspect(fd.Body, func(nd ast.Node) bool {
+				switch x := nd.(type) {
+				case *ast.AssignStmt:
+					for _, l := range x.Lhs {
+						record(l, x.Pos())
+					}
+				case *ast.IncDecStmt:
+					record(x.X, x.Pos())
+				case *ast.UnaryExpr:
+					if x.Op == token.AND { // address taken: may be written through the pointer
+						record(x.X, x.Pos())
+					}
+				}
+				return true
+			})
+			r.analysed(id)
+		}
+	}
+	typeName := func(t types.Type) string {
+		return types.TypeString(t, func(pk *types.Package) string { return shortPkg(pk.Path()) })
+	}
+	remaining := append([]string{}, vmCarriedReviewed...)
+	var carried []*types.Var
+	for i := 0; i < st.NumFields(); i++ {
+		if len(writes[st.Field(i)]) > 0 {
+			carried = append(carried, st.Field(i))
+		}
+	}
+	for _, f := range carried {
+		tn := typeName(f.Type())
+		found := -1
+		for i, rt := range remaining {
+			if rt == tn {
+				found = i
+				break
+			}
+		}
+		key := "vmstate|instruction-written field of type " + tn
+		if found >= 0 {
+			remaining = append(remaining[:found], remaining[found+1:]...)
+			r.ok(key, f.Pos(), "reviewed: consumed within the instruction that sets it, or re-established from the frame's stacks by the unwinder (%d write sites)", len(writes[f]))
+			continue
+		}
+		w := writes[f][0]
+		r.bad(key, w.pos, "Vm field %s (%s) is written while instructions execute (first in %s) and is not one of the reviewed per-run fields: a generator is resumed on a fresh Vm, so a value kept here between the instruction that sets it and the one that reads it is lost when the generator yields in between (a continue passing through a finally clause that yields) — what must survive a suspension belongs in the frame (value stack, block stack)", f.Name(), tn, w.fn)
+	}
+	if len(carried) == 0 {
+		r.undecided("vmstate|anchor", token.NoPos, "no Vm field is written by any instruction: the machine's state is no longer visible to this rule")
+	}
+}
+
+func init() {
+	doc := "what the machine carries from one instruction to the next: the Vm fields written while instructions execute (by handlers, their callees or the dispatch loop — not by the construction before the first instruction) are the six reviewed ones, identified by type (bool, int32, py.Object, vmStatus, py.ExceptionInfo ×2); a generator is resumed on a fresh Vm, so any further such field is lost across a yield"
+	register(&Rule{ID: "C05.R8", Prop: "C05", Floor: 6, Doc: doc, Run: runVmCarriedState})
+	register(&Rule{ID: "C02.R10", Prop: "C02", Floor: 6, Doc: doc + " (a pending break/continue/return travelling through a finally clause is such state)", Run: runVmCarriedState})
+}
